@@ -69,6 +69,7 @@ type Obs struct {
 	Printed  string  `json:"printed,omitempty"`
 	HasPrint bool    `json:"hasprint,omitempty"`
 	AST      *TNode  `json:"ast,omitempty"`
+	Pretty   string  `json:"prettyprint,omitempty"` // AST().PrettyPrint into a buffer (Pretty mode)
 	Panic    string  `json:"panic,omitempty"`
 	NoAST    bool    `json:"noast,omitempty"`
 }
@@ -93,6 +94,9 @@ type Req struct {
 	Steps []Step `json:"steps,omitempty"` // hist: one instance, Reset between steps (Modes[0])
 	Jobs  []Job  `json:"jobs,omitempty"`  // conc
 	Procs int    `json:"procs,omitempty"`
+	// Cold: serve this request as the very first thing a fresh worker process does
+	// (lazily initialised package state is only unprotected the first time).
+	Cold bool `json:"cold,omitempty"`
 }
 
 type Job struct {
